@@ -74,10 +74,10 @@ theorem allRaw_eq_frames (w : World) (srcs : List Str) :
     encoding of the sources — blocks back to back from offset 0, each sixteen 01, 3C 5A, frame —
     followed by zero padding, 21504 bytes in all. -/
 theorem created_tape_is_k7 (w : World) (verbose : Bool) (archive : Str) (srcs : List Str)
-    (hr : AllReadable w srcs) (hfit : totalLen (allRaw w srcs) < Gen.Tape.tapeSize) :
+    (hr : AllReadable w archive srcs) (hfit : totalLen (allRaw w srcs) < Gen.Tape.tapeSize) :
     (inject w verbose archive srcs).writes = [(archive, Spec.K7.tape (srcs.map (specFile w)))]
       ∧ (Spec.K7.tape (srcs.map (specFile w))).length = 21504 := by
-  obtain ⟨t', e, hw⟩ := injectLoop_ok w srcs blank { verbose := verbose } [] [] hr written_blank (by simpa using hfit)
+  obtain ⟨t', e, hw⟩ := injectLoop_ok w archive srcs blank { verbose := verbose } [] [] hr written_blank (by simpa using hfit)
   have hbuf : t'.buf = Spec.K7.tape (srcs.map (specFile w)) := by
     rw [hw.buf]
     simp only [List.nil_append, Spec.K7.tape, Spec.K7.encode]
